@@ -2354,14 +2354,12 @@ theorem runJob_outputs (c : Cfg) (t seg : Nat) (f : Files) (a b : Nat) (h : f.ha
   · exact h
   · split
     · split
-      · split
-        · exact h
-        · unfold Files.addOutput
-          split
-          · unfold Files.hasOutput at h ⊢; rw [hstores]; exact h
-          · unfold Files.hasOutput at h ⊢
-            simp only [List.any_append, Bool.or_eq_true]
-            left; rw [hstores]; exact h
+      · unfold Files.addOutput
+        split
+        · unfold Files.hasOutput at h ⊢; rw [hstores]; exact h
+        · unfold Files.hasOutput at h ⊢
+          simp only [List.any_append, Bool.or_eq_true]
+          left; rw [hstores]; exact h
       · unfold Files.hasOutput at h ⊢; rw [hstores]; exact h
     · unfold Files.hasOutput at h ⊢; rw [hstores]; exact h
 
